@@ -257,6 +257,19 @@ func genC05(out *Out, r *Rng, tier string, n int, shard int) {
 	// ToCoreClaim(nil) uses the default document loader
 	for i := 0; i < n; i++ {
 		c := randCred(r, r.Chance(45))
+		if r.Chance(30) {
+			// a context re-published under the same URL (or served differently by another loader): the same context list
+			// and type name, another context document - with or without a serialization attribute, or with another one
+			old := c.TypeName
+			c.TypeName = "KYCPoolCredential"
+			c.TypeURL = fmt.Sprintf("https://ctx.example/pool-%d.jsonld", r.Intn(2))
+			c.TypeIRI = "urn:uuid:0000pool-type"
+			for i, t := range c.TopTypes {
+				if t == old {
+					c.TopTypes[i] = c.TypeName
+				}
+			}
+		}
 		switch x := r.Intn(20); {
 		case x == 0:
 			c.SubjectTypeAs, c.OtherType = "array2", "Extra"
